@@ -1,4 +1,5 @@
 import Refine.Lemmas.CavityReplace
+import Refine.Lemmas.CavityVisible
 import Refine.Lemmas.GeomReal
 import Refine.Props.C15
 
@@ -192,6 +193,37 @@ theorem newTet_volume (x : Int → V3 ℝ) (node : Int) (f : Face) (t : Tet) (h 
   split at h
   · cases h
   · simp only [Option.some.injEq] at h; subst h; rfl
+
+/-- **visible_positive.**  If `ref_cavity_check_visible` moved the cavity from `unknown` to `visible`, every tet
+    that `ref_cavity_replace` will create has all four nodes valid and its `ref_node_tet_vol` failed the test
+    `volume <= min_volume` (any scalar type: this is the model function run by the driver at `Float`). -/
+theorem visible_positive {α : Type} [Scalar α] (g : Grid α) (c c' : Cav) (s : Refine.Model.Cavity.St)
+    (h : checkVisible g c = (s, c')) (h0 : c.state = .unknown) (h1 : c'.state = .visible) :
+    ∀ t ∈ newTets c', ∃ v, tetVolAt g t.n0 t.n1 t.n2 t.n3 = some v ∧ (v <=. (minVolume : α)) = false := by
+  obtain ⟨_, hc, hl⟩ := checkVisible_visible g c c' s h h0 h1
+  subst hc
+  intro t ht
+  simp only [newTets, Cav.validFaces, List.mem_filterMap] at ht
+  obtain ⟨f, hf, hft⟩ := ht
+  unfold newTetOf at hft
+  split at hft
+  · cases hft
+  · next hhas =>
+    simp only [Option.some.injEq] at hft; subst hft
+    exact checkVisibleLoop_true g c.node _ hl f hf (by simpa using hhas)
+
+/-- over the reals: the volume of every new tet of a visible cavity is `> 1e-15 > 0` -/
+theorem visible_positive_real (g : Grid ℝ) (c c' : Cav) (s : Refine.Model.Cavity.St)
+    (h : checkVisible g c = (s, c')) (h0 : c.state = .unknown) (h1 : c'.state = .visible) :
+    ∀ t ∈ newTets c', ∃ v, tetVolAt g t.n0 t.n1 t.n2 t.n3 = some v ∧ (1e-15 : ℝ) < v ∧ 0 < v := by
+  intro t ht
+  obtain ⟨v, hv, hle⟩ := visible_positive g c c' s h h0 h1 t ht
+  refine ⟨v, hv, ?_⟩
+  rw [le_false_iff] at hle
+  have hm : (minVolume : ℝ) = 1e-15 := by
+    simp only [minVolume, ofDec_eq]; norm_num
+  rw [hm] at hle
+  exact ⟨hle, lt_trans (by norm_num) hle⟩
 
 end volume
 
